@@ -179,21 +179,29 @@ func HarnessC09File() {
 	s := &Server{sl: verifNewLogger(), och: och, fdir: "/srv/files"}
 	openMode = nondetChoice(3)
 	statFails = nondetBool()
-	openCalls, serveContent, fileServerOn, httpErrors = nil, nil, nil, nil
-	fsServed, fileClosed = 0, 0
+	openCalls, serveContent, fileServerOn, httpErrors, statCalls, serveFileOK = nil, nil, nil, nil, nil, nil
+	fsServed, fileClosed, serveFileNo = 0, 0, 0
 	p := nondetString(verifParam("n"))
 	r := &http.Request{RemoteAddr: "c:1", URL: &url.URL{Path: "/" + p}}
 	w := &nullRW{h: http.Header{}}
 	s.fileHandler(w, r)
 	first := takeLine(och)
 	verifAssert(first.Line == "[c] File requested: /"+p, "C09.every-file-request-is-reported-first")
-	verifAssert(len(openCalls) == 1 && openCalls[0] == "/srv/files", "C09.only-the-configured-path-is-opened")
+	touched := append(append([]string{}, openCalls...), statCalls...)
+	verifAssert(len(touched) >= 1, "C09.configured-path-is-looked-at")
+	for _, t := range touched {
+		verifAssert(t == "/srv/files", "C09.only-the-configured-path-is-opened")
+	}
 	switch {
 	case openMode == 0 || statFails:
 		verifAssert(len(httpErrors) == 1 && httpErrors[0] == 500, "C09.failure-is-500")
-		verifAssert(len(serveContent) == 0 && fsServed == 0, "C09.no-content-on-failure")
+		verifAssert(len(serveContent) == 0 && fsServed == 0 && len(serveFileOK) == 0, "C09.no-content-on-failure")
 	case openMode == 1:
-		verifAssert(len(serveContent) == 1 && fsServed == 0, "C09.single-file-served-for-every-path")
+		served := len(serveContent) + len(serveFileOK)
+		for _, n := range serveFileOK {
+			verifAssert(n == "/srv/files", "C09.single-file-mode-serves-that-file")
+		}
+		verifAssert(served == 1 && fsServed == 0 && serveFileNo == 0, "C09.single-file-served-for-every-path")
 	default:
 		ok := len(fileServerOn) == 1 && fileServerOn[0] == "/srv/files" && fsServed == 1 && len(serveContent) == 0
 		if verifCanary() {
@@ -201,8 +209,8 @@ func HarnessC09File() {
 		}
 		verifAssert(ok, "C09.directory-delegated-to-fileserver-rooted-at-fdir")
 	}
-	if openMode != 0 {
-		verifAssert(fileClosed == 1, "C09.handle-closed")
+	if openMode != 0 && len(openCalls) > 0 {
+		verifAssert(fileClosed == len(openCalls), "C09.handle-closed")
 	}
 	verifReach("C09.file.end")
 }
